@@ -14,6 +14,7 @@ import (
 	mintertypes "github.com/chain4energy/c4e-chain/x/cfeminter/types"
 	codectypes "github.com/cosmos/cosmos-sdk/codec/types"
 	sdk "github.com/cosmos/cosmos-sdk/types"
+	bankkeeper "github.com/cosmos/cosmos-sdk/x/bank/keeper"
 )
 
 func init() {
@@ -172,12 +173,17 @@ func execMinter(x *Exec, toks []string) string {
 		ctx := x.ctx.WithBlockTime(timeOf(t)).WithEventManager(sdk.NewEventManager())
 		denom := k.MintDenom(x.ctx)
 		before := x.env.app.BankKeeper.GetSupply(ctx, denom).Amount
-		res, _ := catch(func() error { cfeminter.BeginBlocker(ctx, k); return nil })
+		res, pmsg := catch(func() error { cfeminter.BeginBlocker(ctx, k); return nil })
 		if res != "ok" {
 			x.halted = true
+			x.note("m.block panic: " + pmsg)
 			return "panic"
 		}
 		after := x.env.app.BankKeeper.GetSupply(ctx, denom).Amount
+		// C01: the bank's own supply invariant (supply = sum of all balances) after the mint
+		if msg, broken := bankkeeper.TotalSupply(x.env.app.BankKeeper)(ctx); broken {
+			x.hit("C01", "supply-equals-balances", "m.block", msg)
+		}
 		delta := after.Sub(before)
 		evAmount, evInfl, nEv := "", "", 0
 		for _, e := range ctx.EventManager().Events() {
